@@ -92,6 +92,21 @@ def gen_case(rng, rkind, pt_sub, sh_sub):
     for _ in range(int(rng.integers(0, 3))):
         if nl:
             pts[int(rng.integers(nl))] = None
+    negzero = None
+    if nl and nr and pt_sub.startswith("float") and sh_sub.startswith("float") and rng.random() < 0.15:
+        # a right vertex at the origin, a left point on it, and zeros stored as -0.0 on one side
+        k_ = next((i for i, s_ in enumerate(shapes) if s_ is not None and gg.coords_of(rkind, s_)), None)
+        if k_ is not None:
+            c_ = gg.coords_of(rkind, shapes[k_])
+            vx, vy = c_[0], c_[1]
+            shapes = [None if s_ is None else gg.transform(s_, rkind, 1, -vx, -vy) for s_ in shapes]
+            pts = [None if p_ is None else [p_[0] - vx, p_[1] - vy] for p_ in pts]
+            pts[int(rng.integers(nl))] = [0.0, 0.0]
+            negzero = ["points", "shapes"][int(rng.integers(2))]
+            if negzero == "points":
+                pts = [None if p_ is None else [-0.0 if v == 0 else v for v in p_] for p_ in pts]
+            else:
+                shapes = [_negzero(s_) for s_ in shapes]
     lik = ["default", "named", "string", "nonunique", "range-offset", "range-step"][int(rng.integers(6))]
     rik = ["default", "named", "string", "range-offset", "range-step"][int(rng.integers(5))]
     clash = bool(rng.random() < 0.6)
@@ -100,9 +115,17 @@ def gen_case(rng, rkind, pt_sub, sh_sub):
     return {"rkind": rkind, "pt_sub": pt_sub, "sh_sub": sh_sub, "points": pts, "shapes": shapes,
             "left_index": lik, "right_index": rik, "clash": clash, "how": how,
             "suffixes": suffixes, "seed": int(rng.integers(2 ** 31)),
-            "same_geom_name": bool(rng.random() < 0.3),
+            "same_geom_name": bool(rng.random() < 0.3), "negzero": negzero,
             "reserved": ([["L", "_key_left"], ["R", "_key_right"], ["L", "_key_right"], ["R", "_key_left"]]
                          [int(rng.integers(4))] if rng.random() < 0.06 else None)}
+
+
+def _negzero(e):
+    if e is None:
+        return None
+    if isinstance(e, (list, tuple)):
+        return [_negzero(v) for v in e]
+    return -0.0 if e == 0 else e
 
 
 def make_idx(kind, n, seed, name):
@@ -288,6 +311,8 @@ def check_case(ctx, case):
             "missing-left" if any(p is None for p in pts) else "-",
             "L0" if nl == 0 else "-", "R0" if nr == 0 else "-", "clash" if clash else "-",
             case["left_index"], case["right_index"])
+    if case.get("negzero"):
+        ctx.count(f"signed_zero_cases:{case['negzero']}")
     ctx.case([case["points"], case["shapes"], rkind, how, case["suffixes"], case["clash"],
               case["left_index"], case["right_index"]], nontrivial=len(pairs) > 0)
     w = {"rkind": rkind, "how": how, "suffixes": case["suffixes"], "nl": nl, "nr": nr,
